@@ -376,6 +376,61 @@ func C12(c Ctx) *report.Report {
 			rep.Count("registry-edit")
 		}
 	}
+	// look-alike denominations: bank denoms are case-sensitive (a lock claim for ETH mints cETH, an IBC voucher is
+	// ibc/<UPPER-CASE HASH>), so a token that differs from a registered one only in the case of its letters is another,
+	// unregistered token (or a registered one with its own permissions): every gate must treat it as such
+	for variant := 0; variant < 4; variant++ {
+		e := env.New(env.Opts{NUsers: 2, Tokens: []string{"cETH", "ceth", "cusdc"}})
+		e.BeginBlock()
+		mustOK(e.UpdateRewardsParams(0, 0, 0, "", false), "rewards params")
+		reg := &tokenregistrytypes.Registry{Entries: []*tokenregistrytypes.RegistryEntry{regEntry("rowan", 7), regEntry("ceth", 7), regEntry("cusdc", 7)}}
+		what := "the look-alike cETH is not registered"
+		switch variant {
+		case 1:
+			reg.Entries = append(reg.Entries, regEntry("cETH", 0))
+			what = "the look-alike cETH is registered without permissions, after ceth"
+		case 2:
+			reg.Entries = append([]*tokenregistrytypes.RegistryEntry{regEntry("cETH", 0)}, reg.Entries...)
+			what = "the look-alike cETH is registered without permissions, before ceth"
+		case 3:
+			reg.Entries = []*tokenregistrytypes.RegistryEntry{regEntry("rowan", 7), regEntry("cETH", 7), regEntry("cusdc", 7)}
+			what = "cETH is registered with every permission, ceth is not registered"
+		}
+		mustOK(e.Tx(e.Admin, &tokenregistrytypes.MsgSetRegistry{From: e.Admin.Addr.String(), Registry: reg}), "set registry")
+		good, bad := "ceth", "cETH"
+		if variant == 3 {
+			good, bad = "cETH", "ceth"
+		}
+		n := new(big.Int).Mul(big.NewInt(1000), chain.E(18))
+		if r0 := e.CreatePool(e.Users[0], good, n, n); r0.Code != 0 {
+			rep.Violate("C12/lookalike-denom/registered-token-refused", fmt.Sprintf("creating the pool of %s (registered with every permission) was refused where %s: %s", good, what, trunc(r0.Log, 100)),
+				map[string]interface{}{"registry": what, "operation": "CreatePool", "token": good, "code": r0.Code, "log": trunc(r0.Log, 120)})
+		}
+		u := e.Users[1]
+		bal := func() string { return e.App.BankKeeper.GetAllBalances(e.Ctx(), u.Addr).String() }
+		try := func(op string, f func() chain.TxResult) {
+			before := bal()
+			res := f()
+			after := bal()
+			rep.Count("lookalike." + op + "." + okStr(res.Code == 0))
+			d := map[string]interface{}{"registry": what, "operation": op, "token": bad, "code": res.Code, "log": trunc(res.Log, 120)}
+			if res.Code == 0 {
+				rep.Violate("C12/lookalike-denom-accepted/"+op, fmt.Sprintf("%s on %s was accepted although %s", op, bad, what), d)
+			} else if stripFee(before) != stripFee(after) {
+				rep.Violate("C12/lookalike-denom-moved-coins/"+op, fmt.Sprintf("a refused %s on %s changed balances", op, bad), d)
+			}
+			next++
+		}
+		try("CreatePool", func() chain.TxResult { return e.CreatePool(u, bad, n, n) })
+		try("AddLiquidity", func() chain.TxResult { return e.AddLiquidity(u, bad, chain.E(18), chain.E(18)) })
+		try("Swap-buy", func() chain.TxResult { return e.Swap(u, "rowan", bad, chain.E(18), big.NewInt(0)) })
+		try("Swap-sell", func() chain.TxResult { return e.Swap(u, bad, "rowan", chain.E(18), big.NewInt(0)) })
+		try("RemoveLiquidity", func() chain.TxResult { return e.RemoveLiquidity(u, bad, 1000, 0) })
+		try("IBC-transfer", func() chain.TxResult {
+			m := transfertypes.NewMsgTransfer("transfer", "channel-0", sdk.NewCoin(bad, sdk.NewInt(1000)), u.Addr.String(), "cosmos1x", clienttypes.NewHeight(0, 100000), 0)
+			return e.Tx(u, m)
+		})
+	}
 	rep.Rule = "exhaustive matrix on the real app: every subset of the five permissions on the pool token x five native-token entries (all, not-sellable, not-buyable, no AMM permission, unregistered) x create / symmetric add / native-only add / external-only add / remove / remove-units / four swap routes, the registry being edited by the real MsgSetRegistry after the pools exist; plus random histories under random registries; plus 128 outgoing transfers (32 permission subsets x plain / alias / unit=denom / unregistered)"
 	rep.Distribution["exhaustive_amm_matrix"] = true
 	var all []Step
@@ -402,4 +457,15 @@ func C12(c Ctx) *report.Report {
 			fmt.Sprintf("Definition steps : list (list int) := %s.\nDefinition trs : list (list int) := %s.\nDefinition res : list (list int) := %s.\nDefinition M := Eval vm_compute in (c12_mismatches_re steps trs res).\n", coqList(items), tr, re))
 	}
 	return rep
+}
+
+// stripFee: a balance listing without its rowan entry (the fee of a refused transaction is kept)
+func stripFee(coins string) string {
+	var out []string
+	for _, c := range strings.Split(coins, ",") {
+		if !strings.HasSuffix(c, "rowan") {
+			out = append(out, c)
+		}
+	}
+	return strings.Join(out, ",")
 }
